@@ -850,8 +850,12 @@ func (g *Gen) stmt(depth int) {
 		return
 	}
 	switch n := g.r.Intn(100); {
-	case n < 22:
+	case n < 17:
 		g.declLocal(g.opt.Depth)
+	case n < 20:
+		g.redeclStmt()
+	case n < 22:
+		g.shadowStmt()
 	case n < 40:
 		if !g.assignStmt(g.opt.Depth) {
 			g.declLocal(g.opt.Depth)
@@ -911,6 +915,42 @@ func (g *Gen) stmt(depth int) {
 		g.declare(variable{name: n, t: ft, assignable: true})
 		g.emit("%s(%s)", n, g.args(function{name: n, t: ft}, 1))
 	}
+}
+
+// redeclStmt declares two variables, then redeclares the second one together
+// with a new variable in a multi-variable :=, and reads each of them in a
+// statement of its own (so that removing one read leaves a variable that is
+// assigned twice but never used).
+func (g *Gen) redeclStmt() {
+	t1, t2, t3 := g.basicType(), g.basicType(), g.basicType()
+	a, b, c := g.name("v"), g.name("v"), g.name("v")
+	e1, e2, e3, e4 := g.expr(t1, 1).s, g.expr(t2, 1).s, g.expr(t3, 1).s, g.expr(t2, 1).s
+	g.emit("%s, %s := %s(%s), %s(%s)", a, b, paren(t1), e1, paren(t2), e2)
+	g.emit("_ = %s", a)
+	if g.chance(50) {
+		g.emit("%s, %s := %s(%s), %s(%s)", c, b, paren(t3), e3, paren(t2), e4)
+	} else {
+		g.emit("%s, %s := %s(%s), %s(%s)", b, c, paren(t2), e4, paren(t3), e3)
+	}
+	g.emit("_ = %s", c)
+	g.emit("_ = %s", b)
+	g.declare(variable{name: a, t: t1, assignable: true})
+	g.declare(variable{name: b, t: t2, assignable: true})
+	g.declare(variable{name: c, t: t3, assignable: true})
+}
+
+// shadowStmt emits a well-typed block in which an inner defined type shadows
+// an outer one of the same name and underlying type, both used in the same
+// composite type position.
+func (g *Gen) shadowStmt() {
+	g.n++
+	u := g.pick([]string{"int", "string", "struct{ x int }", "[]int", "float64"})
+	pos := typePositions[g.r.Intn(len(typePositions))]
+	if strings.Contains(pos, "map[T]") && u == "[]int" {
+		u = "int" // a slice type is not a valid map key
+	}
+	rel := g.pick([]string{"use-both", "call-inner", "interface"})
+	g.emit("%s", ShadowBlock(g.n, u, pos, rel))
 }
 
 func (g *Gen) ifStmt(depth int) {
